@@ -1303,6 +1303,13 @@ class Evaluator:
                 return atom(name, [recv] + args)
             return None
         d = n.get("inst") or n.get("def") or ""
+        if d not in self.by_path:
+            # a generic method (`fn f(&self, ctx: &impl ElementMap)`): the instance names its type arguments, the
+            # source-level body is filed under the definition
+            for alt_ in (re.sub(r"::<[^>]*>$", "", d), n.get("def") or ""):
+                if alt_ in self.by_path:
+                    d = alt_
+                    break
         if d.startswith(self.inline_prefixes) and st["depth"] < self.max_depth and d in self.by_path and d not in self.opaque and (d not in getattr(self, "_stack", []) or any(a is not None and not is_form(a) and a[0] == "variant" for a in args)):
             sub = self.summary(d, self_value=recv, args=args, depth=st["depth"] + 1)
             if sub is not None and sub["ret"] is not None:
